@@ -28,6 +28,9 @@ ASSUMPTIONS = [
 ]
 
 
+_shared = {}
+
+
 def check_case(spec, seed, obs, tag='random'):
     import random
     from pydiffx.dom import DiffX
@@ -69,6 +72,23 @@ def check_case(spec, seed, obs, tag='random'):
                              'got': data[max(0, i - 30):i + 60],
                              'want': want[max(0, i - 30):i + 60]})
         return
+    # the documented reusable writer object must give the same bytes
+    try:
+        import io as _io
+        from pydiffx.dom.writer import DiffXDOMWriter
+        if 'w' not in _shared:
+            _shared['w'] = DiffXDOMWriter()
+        s2 = _io.BytesIO()
+        _shared['w'].write_stream(tree, s2)
+        obs.count('shared_dom_writer_compared')
+        if s2.getvalue() != data:
+            obs.violation('reused_dom_writer_gives_other_bytes', case,
+                          {'got': s2.getvalue()[:200]})
+            return
+    except Exception as e:
+        obs.violation('reused_dom_writer_raised:%s'
+                      % common.exc_mechanism(e), case, repr(e)[:200])
+        return
     # observers must not have changed the tree
     if treesnap.first_diff(snap, treesnap.snapshot(tree)):
         obs.violation('to_bytes_mutated_tree', case)
@@ -100,6 +120,21 @@ def check_case(spec, seed, obs, tag='random'):
 def run(ctx):
     obs = ctx.obs
     rng = ctx.rng
+    if ctx.index == 0:
+        for indent in (255, 256, 4096, 65535, 65536, 70001):
+            spec = {'encoding': None, 'preamble': {
+                'text': 'a\n  b\n\nc', 'encoding': None, 'indent': indent,
+                'line_endings': None, 'mimetype': None},
+                'meta': {'obj': {'k': 1}, 'encoding': None, 'format': None},
+                'changes': [{'encoding': 'utf-16', 'preamble': {
+                    'text': 'x\ny\n', 'encoding': None, 'indent': indent,
+                    'line_endings': 'dos', 'mimetype': None},
+                    'meta': {'obj': None, 'encoding': None, 'format': None},
+                    'files': [{'encoding': None, 'meta': {
+                        'obj': {'p': 1}, 'encoding': None, 'format': None},
+                        'diff': {'data': None, 'encoding': None,
+                                 'line_endings': None, 'type': None}}]}]}
+            check_case(spec, 1, obs, 'large_indent')
     n = ctx.share(ctx.pick(10000, 300000))
     for k in range(n):
         spec = trees.gen_tree(rng, wild=rng.random() < 0.25)
